@@ -117,7 +117,7 @@ func (p *Prog) EffectSites(entry *ssa.Function, id string, isEffect func(ssa.Ins
 					out = append(out, EffectSite{e, in, name})
 				}
 				if c, ok := in.(ssa.CallInstruction); ok {
-					for _, callee := range p.Callees(c) {
+					for _, callee := range e.CalleesIn(c) {
 						if reach[callee] && len(callee.Blocks) > 0 {
 							walk(e.Sub(c, callee), stack)
 						}
@@ -147,7 +147,7 @@ func (p *Prog) EffectSitesBelow(env *Env, id string, isEffect func(ssa.Instructi
 					out = append(out, EffectSite{e, in, name})
 				}
 				if c, ok := in.(ssa.CallInstruction); ok {
-					for _, callee := range p.Callees(c) {
+					for _, callee := range e.CalleesIn(c) {
 						if reach[callee] && len(callee.Blocks) > 0 {
 							walk(e.Sub(c, callee), stack)
 						}
